@@ -4,7 +4,14 @@ from vlib.skyb import hx
 
 PID = "C01"
 LEAN_MODULE = "Sb.Properties.C01"
-THEOREMS = []
+THEOREMS = [
+    "Sb.C01.constants", "Sb.C01.makeBezier_eq_bernstein", "Sb.C01.init_header", "Sb.C01.position_eq_spec",
+    "Sb.C01.duration_eq_sum", "Sb.C01.yaw_in_range",
+    "Sb.Proofs.buildSegment_spec", "Sb.Proofs.seek_pos_spec", "Sb.Proofs.durLoop_spec", "Sb.Proofs.bezier_zero", "Sb.Proofs.bezier_one",
+    "Sb.Proofs.bezier8", "Sb.Proofs.bezier4", "Sb.Proofs.fac_vals",
+]
+ASSUMPTIONS = ["theorems are about exact rational arithmetic (secExact); float32 rounding of the implementation is bounded by the "
+               "Lean-defined tolerance tolPos of Sb/Corr/Traj.lean (DESIGN.md section 4, C01)"]
 RULE = ("trajectory blocks: scale 0..127 (0,1,10,127 favoured), 0..40 segments, every combination of constant/linear/cubic/degree-7 "
         "encodings per axis, durations {1,2,999,1000,65535,seeded}, coordinates {±32767,-32768,0,seeded}, negative and >=3600 yaw; "
         "fresh player per query at times {-inf,<0,0,every boundary exactly and ±1 ulp, interior fractions, end, beyond, 1e9, +inf}; "
